@@ -77,7 +77,7 @@ impl Prop for C10 {
         "C10"
     }
     fn cases(&self, ctx: &Ctx) -> u64 {
-        ctx.tier.pick(1500, 40_000)
+        ctx.tier.pick(20_000, 250_000)
     }
     fn rule(&self) -> &'static str {
         "well-formed inputs (seeds, grammar programs) with wrap_column = 4e9 x tab_width in {0,1,2,3,4,8,15,16,17,255,random} x continuation_indents in {0,1,2,3,15,16,17,255,random} x use_tabs in {true,false}; oracles: (1) replacing every leading tab of the use_tabs=true result by tab_width spaces gives the use_tabs=false result; (2) per line, indentation = (levels + continuation_indents*continuations) units, with levels and continuations inferred from two further executions (tab_width=1 with continuation_indents 1 and 0); (3) nothing but leading indentation differs between configurations. Non-trivial: output has an indented line (lines with continuations are counted separately in `observed`); inputs with line-spanning tokens are skipped (their interior lines are token text); distinct by input hash + (tab_width, continuation_indents)."
